@@ -2,6 +2,7 @@
 from __future__ import annotations
 
 import hashlib
+import json
 import os
 
 from .. import common, suitio, suitcases, cbortree as ct
@@ -291,7 +292,67 @@ def run(tier: str, seed: int) -> int:
                                       "what": "the created envelope does not carry the hash / length / content of the referenced artifact"})
         if len(res.samples) < 4 and o["refs"] and job[1] % 53 == 0:
             res.sample({"seed": job[0], "index": job[1], "references_checked": o["refs"][:10]})
+    rebuild_cases(res)
     return finish(res, st, RULE, NOTE)
+
+
+def rebuild_cases(res):
+    """the same `create` run again onto the same output path after a referenced file changed in a way that leaves the root manifest as it was (an
+    integrated payload whose digest is given raw; a dependency envelope referred to by path): the new output holds the new file contents (C05-q)"""
+    import tempfile, cbor2, hashlib, yaml
+    with tempfile.TemporaryDirectory(prefix="verif_c05r_") as d:
+        for k, form in enumerate(("payload-file", "dependency-file", "payload-file-json")):
+            work_d = os.path.join(d, f"b{k}")
+            os.makedirs(work_d)
+            child = {"SUIT_Envelope_Tagged": {"suit-authentication-wrapper": {"SuitDigest": {"suit-digest-algorithm-id": "cose-alg-sha-256"}},
+                                              "suit-manifest": {"suit-manifest-version": 1, "suit-manifest-sequence-number": 3},
+                                              "suit-integrated-payloads": {"#inner": "ff0011"}}}
+            first, second = bytes(range(50)), bytes(range(50, 120))
+            if form == "dependency-file":
+                yaml.dump(child, open(os.path.join(work_d, "child.yaml"), "w"), sort_keys=False)
+                rc0, _ = common.run_cli(["create", "--input-file", "child.yaml", "--output-file", "dep.suit"], work_d)
+                if rc0 != 0:
+                    continue
+                first = open(os.path.join(work_d, "dep.suit"), "rb").read()
+                # the child rebuilt with another integrated payload: its manifest, hence the digest the root holds, is unchanged
+                child["SUIT_Envelope_Tagged"]["suit-integrated-payloads"]["#inner"] = "ff0022334455"
+                members = {"suit-integrated-dependencies": {"#dep": "dep.suit"}}
+                name, fname = "#dep", "dep.suit"
+            else:
+                open(os.path.join(work_d, "fw.bin"), "wb").write(first)
+                members = {"suit-integrated-payloads": {"#fw": "fw.bin"}}
+                name, fname = "#fw", "fw.bin"
+            root = {"SUIT_Envelope_Tagged": dict({"suit-authentication-wrapper": {"SuitDigest": {"suit-digest-algorithm-id": "cose-alg-sha-256"}},
+                                                  "suit-manifest": {"suit-manifest-version": 1, "suit-manifest-sequence-number": 1,
+                                                                    "suit-install": [{"suit-directive-override-parameters": {"suit-parameter-image-digest": {
+                                                                        "suit-digest-algorithm-id": "cose-alg-sha-256", "suit-digest-bytes": {"raw": "00" * 32}}}}]}}, **members)}
+            inp = "root.json" if form.endswith("json") else "root.yaml"
+            (json.dump if inp.endswith("json") else (lambda o, f: yaml.dump(o, f, sort_keys=False)))(root, open(os.path.join(work_d, inp), "w"))
+            outs = []
+            for step in (1, 2):
+                if step == 2:
+                    if form == "dependency-file":
+                        yaml.dump(child, open(os.path.join(work_d, "child.yaml"), "w"), sort_keys=False)
+                        common.run_cli(["create", "--input-file", "child.yaml", "--output-file", "dep.suit"], work_d)
+                        second = open(os.path.join(work_d, "dep.suit"), "rb").read()
+                    else:
+                        open(os.path.join(work_d, "fw.bin"), "wb").write(second)
+                rc, log = common.run_cli(["create", "--input-file", inp, "--output-file", "root.suit"], work_d)
+                got = None
+                if rc == 0 and os.path.exists(os.path.join(work_d, "root.suit")):
+                    try:
+                        got = cbor2.loads(open(os.path.join(work_d, "root.suit"), "rb").read()).value.get(name)
+                    except Exception:  # noqa
+                        got = None
+                outs.append((rc, got))
+            res.case(["rebuild", form], nontrivial=True)
+            res.count("rebuild:" + form)
+            want = [first, second]
+            for step, (rc, got) in enumerate(outs):
+                if rc != 0 or got != want[step]:
+                    res.spec_failures.append({"history": f"create twice onto the same output path, {fname} rewritten in between ({form})", "run": step + 1, "exit": rc,
+                                              "got": None if got is None else got.hex()[:80], "expected": want[step].hex()[:80],
+                                              "what": f"the envelope written by run {step + 1} does not hold the current content of {fname}"})
 
 
 def _short(x):
